@@ -78,41 +78,95 @@ def templates(rng, k):
   return 'two-groups', mk(n, cyc), None, I, 'fixed'
 
 def random_cyclic(rng, k):
-  """a random strongly-connected group of 2..5 blocks over 3..7 signals (names chosen so that some are prefixes of
-  others), each signal written by exactly one block, no block reads what it writes; mostly monotone (| &) logic so
-  that iteration usually settles; expectation 'either': returning is allowed only with a fixed point"""
-  w = rng.choice([1, 2, 4, 8])
+  """a random strongly-connected group of 2..5 blocks. Signals: Bits wires (some split between TWO owner blocks at a
+  random bit, read through slices that may overlap the other part by a single bit), struct-typed wires (written whole
+  with a constructor or field by field, read whole or by field), names chosen so that some are prefixes of others.
+  Every bit has one writer, no block reads a signal it (partly) owns. Mostly monotone (| &) logic so iteration
+  usually settles; expectation 'either': returning is allowed only with a fixed point."""
   base = rng.choice(['x', 'out', 'a', 'v'])
   pool = [base, base + '1', base + '_val', base + 'a', 'y', 'y2', 'q', 'qq']
   rng.shuffle(pool)
   nb = rng.randrange(2, 6)
   nsig = rng.randrange(max(nb, 3), min(len(pool), nb + 3) + 1)
-  sigs = pool[:nsig]
-  owner = {}
-  for j, sname in enumerate(sigs): owner[sname] = j % nb if j < nb else rng.randrange(nb)
-  L = [f's.i = InPort( {w} )', f's.m = InPort( {w} )'] + [f's.{n_} = Wire( {w} )' for n_ in sigs] + [f's.o = OutPort( {w} )']
   mono = rng.random() < 0.8
   ops = ['|', '&', '|', '&'] if mono else ['|', '&', '^', '+']
+  sigs = []            # dict(name, kind, w, parts=[(target_text, lo, hi, owner)])
+  for j_, nme in enumerate(pool[:nsig]):
+    own = j_ % nb if j_ < nb else rng.randrange(nb)
+    r = rng.random()
+    if r < 0.3:
+      if rng.random() < 0.6: parts = [(f's.{nme}', 0, 16, own)]
+      else:
+        own2 = rng.randrange(nb)
+        parts = [(f's.{nme}.p.a', 4, 12, own), (f's.{nme}.p.b', 0, 4, own), (f's.{nme}.c', 12, 16, own2)]
+      sigs.append(dict(name=nme, kind='struct', w=16, parts=parts))
+    else:
+      w = rng.choice([1, 2, 4, 8, 8])
+      if w >= 4 and rng.random() < 0.45:
+        h = rng.randrange(1, w); own2 = rng.randrange(nb)
+        parts = [(f's.{nme}[0:{h}]', 0, h, own), (f's.{nme}[{h}:{w}]', h, w, own2)]
+      else: parts = [(f's.{nme}', 0, w, own)]
+      sigs.append(dict(name=nme, kind='bits', w=w, parts=parts))
+  owners_of = {sg['name']: {p_[3] for p_ in sg['parts']} for sg in sigs}
+  def term(b):
+    """a readable source for block b: (expr, width, is_plain)"""
+    cands = [sg for sg in sigs if b not in owners_of[sg['name']]]
+    if not cands or rng.random() < 0.25:
+      return rng.choice([('s.i', 8, True), ('s.m', 8, True)])
+    sg = rng.choice(cands)
+    if sg['kind'] == 'struct':
+      f, fw = rng.choice([('p.a', 8), ('p.b', 4), ('c', 4)])
+      return (f's.{sg["name"]}.{f}', fw, True)
+    w = sg['w']
+    if w >= 2 and rng.random() < 0.5:
+      cut = [p_[1] for p_ in sg['parts'] if p_[1] > 0]
+      if cut and rng.random() < 0.6:     # a slice that crosses the split by exactly one bit
+        h = cut[0]
+        lo, hi = rng.choice([(0, h + 1), (h - 1, w)])
+      else:
+        lo = rng.randrange(0, w); hi = rng.randrange(lo + 1, w + 1)
+      return (f's.{sg["name"]}[{lo}:{hi}]', hi - lo, True)
+    return (f's.{sg["name"]}', w, True)
+  def fit(e, ew, w, plain):
+    if ew == w: return e
+    if ew > w: return f'{e}[0:{w}]' if plain and not e.endswith(']') else f'trunc( {e}, {w} )'
+    return f'zext( {e}, {w} )'
+  def expr(b, w, must=None):
+    ts = ([must] if must else []) + [term(b) for _ in range(rng.randrange(1, 3))]
+    e = fit(*ts[0][:2], w, ts[0][2])
+    for t_ in ts[1:]: e = f'({e} {rng.choice(ops)} {fit(t_[0], t_[1], w, t_[2])})'
+    if not mono and rng.random() < 0.2: e = f'(~{e})'
+    return e
+  L = ['s.i = InPort( 8 )', 's.m = InPort( 8 )']
+  for sg in sigs: L.append(f's.{sg["name"]} = Wire( {"Outer" if sg["kind"] == "struct" else sg["w"]} )')
+  L.append('s.o = OutPort( 8 )')
   blocks = []
   for b in range(nb):
-    mine = [n_ for n_ in sigs if owner[n_] == b]
-    prev = [n_ for n_ in sigs if owner[n_] == (b - 1) % nb]
-    others = [n_ for n_ in sigs if owner[n_] != b]
     body = []
-    for t_i, t in enumerate(mine):
-      srcs = [rng.choice(prev)] if (t_i == 0 and prev and prev[0] not in mine) else []
-      srcs += rng.sample(others, min(len(others), rng.randrange(0, 3)))
-      srcs = [f's.{x}' for x in dict.fromkeys(srcs)] + rng.sample(['s.i', 's.m'], rng.randrange(1, 3))
-      e = srcs[0]
-      for x in srcs[1:]: e = f'({e} {rng.choice(ops)} {x})'
-      if not mono and rng.random() < 0.2: e = f'(~{e})'
-      body.append(f'  s.{t} @= {e}')
-    blocks.append((f'g{b}', body))
+    prev = [sg for sg in sigs if ((b - 1) % nb) in owners_of[sg['name']] and b not in owners_of[sg['name']]]
+    first = True
+    for sg in sigs:
+      for (t, lo, hi, own) in sg['parts']:
+        if own != b: continue
+        must = None
+        if first and prev:
+          ps = rng.choice(prev)
+          must = (f's.{ps["name"]}.c', 4, True) if ps['kind'] == 'struct' else (f's.{ps["name"]}', ps['w'], True)
+          first = False
+        if sg['kind'] == 'struct' and t == f's.{sg["name"]}':
+          whole = [x for x in sigs if x['kind'] == 'struct' and b not in owners_of[x['name']]]
+          if whole and rng.random() < 0.6:
+            body.append(f'  {t} @= s.{rng.choice(whole)["name"]}')          # whole-struct copy: the struct signal itself carries the loop
+          else:
+            body.append(f'  {t} @= Outer( Pt( {expr(b, 8, must)}, {expr(b, 4)} ), {expr(b, 4)} )')
+        else:
+          body.append(f'  {t} @= {expr(b, hi - lo, must)}')
+    if body: blocks.append((f'g{b}', body))
   rng.shuffle(blocks)
   for nme, body in blocks: L += ['@update', f'def {nme}():'] + body
   obs = rng.choice(sigs)
-  L += ['@update', 'def zobs():', f'  s.o @= s.{obs}']
-  I = [('i', ('bits', w)), ('m', ('bits', w))]
+  L += ['@update', 'def zobs():', f'  s.o @= {fit("s." + obs["name"] + (".p.a" if obs["kind"] == "struct" else ""), 8 if obs["kind"] == "struct" else obs["w"], 8, True)}']
+  I = [('i', ('bits', 8)), ('m', ('bits', 8))]
   return 'random-cyclic' + ('-monotone' if mono else ''), mk(f'K{k}', L), None, I, 'either'
 
 class Hang(Exception): pass
@@ -140,6 +194,9 @@ def groups_of(top, fp):
     if not f.__name__.startswith('wrapped_SCC'): raise ValueError(f'unknown schedule entry {f.__name__}')
     inner = f.__globals__['scc_tick_func'].__closure__[0].cell_contents
     g = [fp.cid[b] for b in inner]
+    # DynamicSchedulePass can list a block of a cyclic group several times in a row (once per edge from the previous
+    # group); running a block twice in a row equals running it once (lemma `idem`), so consecutive repeats are merged
+    g = [x for i_, x in enumerate(g) if i_ == 0 or g[i_ - 1] != x]
     src = inspect.getsource(f)
     watched = []
     host = None
@@ -177,6 +234,9 @@ def run(ctx):
     for sch in ('simple', 'heuristic', 'unroll'):
       try:
         t = sc.build(cls, sch, seed=0)
+        if expect == 'either':       # a random group need not be cyclic at block level
+          ctx.hist['random-group-acyclic'] = ctx.hist.get('random-group-acyclic', 0) + 1
+          continue
         ctx.violation(f'C11:cyclic-accepted:{kind}:{sch}', f'{sch} scheduled a design whose update blocks depend on each other cyclically ({kind})', {'design_source': csrc, 'scheduler': sch})
       except Exception as e:
         ctx.hist['static-reject:' + type(e).__name__] = ctx.hist.get('static-reject:' + type(e).__name__, 0) + 1
@@ -200,6 +260,16 @@ def run(ctx):
         ctx.violation(f'C11:once-accepted:{sch}', f'{sch} scheduled a cycle that contains an update_once block', {'design_source': csrc, 'scheduler': sch}); continue
       fp = sc.Footprints(top)
       if sch == 'dynamic':
+        # the cycle must be SEEN: every block that writes a bit another block reads must be ordered before it in the
+        # constraint set (bit-level footprints, independent of the structural overlap walk)
+        E = set(fp.edges)
+        for a, ba in enumerate(fp.comb):
+          for b_, bb in enumerate(fp.comb):
+            if a == b_: continue
+            if any(r1 == r2 and l1 < h2 and l2 < h1 for (r1, l1, h1) in fp.writes[ba] for (r2, l2, h2) in fp.reads[bb]) and (a, b_) not in E and (b_, a) not in set(fp.expl):
+              ctx.violation(f'C11:dependency-not-seen:{kind}:{ba.__name__}:{bb.__name__}',
+                            f'{kind}: block {ba.__name__} writes bits that {bb.__name__} reads ({fp.writes[ba]} / {fp.reads[bb]}) but the dependency graph has no such edge, so a cycle through it is neither iterated nor reported',
+                            {'design_source': csrc, 'writer': ba.__name__, 'reader': bb.__name__})
         try:
           gs, wf = groups_of(top, fp)
           gterm = coq_list([coq_list([f'{x}%nat' for x in g_]) for g_ in gs])
